@@ -238,7 +238,7 @@ def check_c12(ck, tier, replay=None):
             pa, _ = spline_eval(mod, 'cubic', g, y2, F(g[0]), parsed, (), 0, QRContract()); pb, _ = spline_eval(mod, 'cubic', g, [ys[k] + lam * y2[k] for k in range(n)], F(g[0]), parsed, (), 0, QRContract())
             agg_prove(ck, '%s: f\'\' depends linearly on the ordinates' % label, [(c1 + c2 + c3, [z3.Or([v3[3][k] != v1[3][k] + lam * v2[3][k] for k in range(n)])]) for (c1, v1), (c2, v2), (c3, v3) in itertools.product(p, pa, pb)], TO, found, 'cubic')
     # cubic periodic: non-singular system, equal slope and curvature at the two ends, interpolation
-    for n, g in ((4, GRIDS[4][0]), (4, GRIDS[4][1]), (5, GRIDS[5][1])) if tier == 'quick' else ((3, GRIDS[3][1]), (4, GRIDS[4][0]), (4, GRIDS[4][1]), (5, GRIDS[5][0]), (5, GRIDS[5][1]), (6, GRIDS[6][0])):
+    for n, g in ((3, GRIDS[3][1]), (4, GRIDS[4][0]), (4, GRIDS[4][1]), (5, GRIDS[5][1])) if tier == 'quick' else ((3, GRIDS[3][1]), (4, GRIDS[4][0]), (4, GRIDS[4][1]), (5, GRIDS[5][0]), (5, GRIDS[5][1]), (6, GRIDS[6][0])):
         ys = [z3.Real('y%d' % i) for i in range(n)]; per = [ys[0] == ys[n - 1]]
         label = 'CubicSpline periodic (n=%d, grid %s)' % (n, [str(v) for v in g])
         qr = QRContract(); p0, _ = spline_eval(mod, 'cubic', g, ys, F(g[0]), parsed, per, 1, qr)
@@ -310,14 +310,15 @@ def fit_clause(ck, mod, tier, parsed, TO, found):
         return None
     def Z(v): return v if z3.is_expr(v) else z3.RealVal(v)
     ND = 2 if tier == 'quick' else 3
-    for g in ([GRIDS[3][1], GRIDS[4][1]] if tier == 'quick' else [GRIDS[3][1], GRIDS[4][0], GRIDS[4][1], GRIDS[5][1]]):
+    BCN = {0: 'natural', 1: 'periodic', 2: 'zero end slopes'}
+    for g, bc in ([(GRIDS[3][1], 0), (GRIDS[4][1], 0), (GRIDS[3][1], 2), (GRIDS[3][1], 1)] if tier == 'quick' else [(GRIDS[3][1], 0), (GRIDS[4][0], 0), (GRIDS[4][1], 0), (GRIDS[5][1], 0), (GRIDS[3][1], 2), (GRIDS[4][1], 2), (GRIDS[3][1], 1), (GRIDS[4][1], 1)]):
         n = len(g); xs = [z3.Real('x%d' % i) for i in range(ND)]; ys = [z3.Real('y%d' % i) for i in range(ND)]
         u = [z3.Real('u%d' % i) for i in range(2 * n)]
-        label = 'CubicSpline::Fit (grid %s, %d data points)' % ([str(v) for v in g], ND)
+        label = 'CubicSpline::Fit (%s boundaries, grid %s, %d data points)' % (BCN[bc], [str(v) for v in g], ND)
         def build(it):
             cap.clear()
             gp = alloc_doubles(it, 'g', g); px = alloc_doubles(it, 'x', xs); py = alloc_doubles(it, 'y', ys); f = alloc_doubles(it, 'f', [F(0)] * n); f2 = alloc_doubles(it, 'f2', [F(0)] * n)
-            rc = symx.sgn64(it.call('@h_fit', [gp, n, px, py, ND, 0, f, f2]))
+            rc = symx.sgn64(it.call('@h_fit', [gp, n, px, py, ND, bc, f, f2]))
             return rc, read_doubles(it, f, n), read_doubles(it, f2, n), dict(cap)
         res, st = run(mod, 'fit', build, parsed, extra_models={nm: m_qr for nm in names}, assume=[z3.And(x >= g[0], x <= g[-1]) for x in xs]); ck.stubs |= st['models_used'] | {'linalg_constrained_qrsolve(A, b, B) -> fresh solution vector u (contract: argmin |A u - b| s.t. B u = 0)'}
         ck.add_witness('%s: %d interval combinations' % (label, len(res)), len(res) >= 2)
@@ -353,14 +354,20 @@ def fit_clause(ck, mod, tier, parsed, TO, found):
                 return rs[0][1][1]
             rows = []
             Bu = lambda k: sum((Z(Bref[k][j]) * u[j] for j in range(2 * n)), z3.RealVal(0))
-            q.append(([], [z3.Or(Bu(0) != u[n], Bu(n - 1) != u[2 * n - 1])]))
+            if bc == 0: q.append(([], [z3.Or(Bu(0) != u[n], Bu(n - 1) != u[2 * n - 1])]))
+            elif bc == 1: q.append(([], [z3.Or(z3.And(Bu(0) != u[0] - u[n - 1], Bu(0) != u[n - 1] - u[0]), z3.And(Bu(n - 1) != u[n] - u[2 * n - 1], Bu(n - 1) != u[2 * n - 1] - u[n]))]))
+            else:
+                for row, k, at in ((0, 0, g[0]), (n - 1, n - 2, g[n - 1])):
+                    slope = z3.substitute(Z(dstate(k)), (r, z3.RealVal(at)))
+                    A_ = Algebra(); P1 = A_.residual(A_.rf(Bu(row)), A_.rf(slope)); P2 = A_.residual(A_.rf(Bu(row)), A_.rf(-slope))
+                    q.append(([], [z3.And(A_.poly_z3(P1) != 0, A_.poly_z3(P2) != 0)]))
             for k in range(1, n - 1):
                 jump = z3.substitute(Z(dstate(k - 1)), (r, z3.RealVal(g[k]))) - z3.substitute(Z(dstate(k)), (r, z3.RealVal(g[k])))
                 A_ = Algebra(); P1 = A_.residual(A_.rf(Bu(k)), A_.rf(jump)); P2 = A_.residual(A_.rf(Bu(k)), A_.rf(-jump))
                 q.append(([], [z3.And(A_.poly_z3(P1) != 0, A_.poly_z3(P2) != 0)]))
-            st_, mdl = smt.agg_core(ck, '%s: the constraint rows say f\'\' = 0 at both ends and S\'(x_k - 0) = S\'(x_k + 0) at every interior knot' % label, q, TO, probe=[fr != u[n]])
+            st_, mdl = smt.agg_core(ck, '%s: the constraint rows say %s and S\'(x_k - 0) = S\'(x_k + 0) at every interior knot' % (label, {0: "f\'\' = 0 at both ends", 1: "f and f\'\' agree at the two ends", 2: "S\' = 0 at both ends"}[bc]), q, TO, probe=[fr != u[n]])
             if st_ == 'sat': found.append(('fit-constraints', label + ': the smoothness constraint matrix is not natural ends + C1', mdl))
-    ck.assumptions.append('CubicSpline::Fit: linalg_constrained_qrsolve (Eigen) by contract (returns the constrained least-squares optimum); natural boundaries only; with F1-F3 the optimum is the least-squares natural cubic spline on the grid, which reproduces data that already lie in the spline space whenever that optimum is unique')
+    ck.assumptions.append('CubicSpline::Fit: linalg_constrained_qrsolve (Eigen) by contract (returns the constrained least-squares optimum); natural, zero-slope and periodic boundary rows; with F1-F3 the optimum is the least-squares natural cubic spline on the grid, which reproduces data that already lie in the spline space whenever that optimum is unique')
     ck.bounds['fit'] = '%d data points with symbolic abscissae anywhere in the grid (all interval combinations), grids of 3-4 (thorough 5) knots' % ND
 
 # ---------------- Table text reader / writer (point flags survive reading and a write-read round trip) ----------------
